@@ -14,6 +14,11 @@
 //	write-back-divergent  SetValues while the file and the loaded state disagree (external
 //	                      edits not loaded yet, keys deleted earlier, defaults after a missing
 //	                      file, in-memory overrides); oracle against the file
+//	write-back-fault      SetValues when the write-back cannot go its ordinary way (no room for
+//	                      a sibling file: name near NAME_MAX through WHATAP_CONFIG, immutable
+//	                      directory; a parser whose Write fails or stores part of the keys; keys
+//	                      the writer drops), watched by concurrent readers of a large file:
+//	                      file old or merge at every instant, getters against the file after
 //	observer-histories    registration histories on one ConfigObserver (new names, re-used names,
 //	                      one object under two names, before the first load / between polls /
 //	                      between an edit and its poll): every currently registered observer
@@ -75,6 +80,9 @@ func main() {
 	timed(c, "write-back-divergent", func() {
 		c.Cases("write-back-divergent", c.N(pick(race, 150, 1600), pick(race, 1000, 24000)), func(i int, r *vlib.Rand) { divergentCase(c, i, r) })
 	})
+	timed(c, "write-back-fault", func() {
+		c.Cases("write-back-fault", c.N(pick(race, 60, 800), pick(race, 500, 8000)), func(i int, r *vlib.Rand) { wbFaultCase(c, i, r) })
+	})
 	timed(c, "edit-during-reload", func() {
 		c.Cases("edit-during-reload", c.N(pick(race, 150, 1600), pick(race, 1000, 24000)), func(i int, r *vlib.Rand) { midReloadCase(c, i, r) })
 	})
@@ -113,6 +121,19 @@ func main() {
 		c.Floor("mid_reload_actions_before-read", nd/40, c.Counter("mid_reload_actions_before-read"))
 		c.Floor("observer_history_expectations", nd/2, c.Counter("observer_history_expectations"))
 		c.Floor("observer_history_expectations/re-registered-name", nd/10, c.Counter("observer_history_expectations/re-registered-name"))
+		nf := int64(c.N(800, 8000) / c.NShards)
+		c.Floor("wbfault_writebacks", nf/10, c.Counter("wbfault_writebacks"))
+		c.Floor("wbfault_clean_failures", nf/20, c.Counter("wbfault_clean_failures"))
+		c.Floor("wbfault_cases/conf-name-near-NAME_MAX", nf/50, c.Counter("wbfault_cases/conf-name-near-NAME_MAX"))
+		if immutableUsable() {
+			// only where the flag works at all (root or CAP_LINUX_IMMUTABLE, ext4/xfs/btrfs/tmpfs)
+			c.Floor("wbfault_cases/immutable-dir", nf/50, c.Counter("wbfault_cases/immutable-dir"))
+		} else {
+			c.Note("write-back-fault: the immutable flag cannot be set or does not keep files from being created here; fault class immutable-dir was not exercised")
+		}
+		c.Floor("wbfault_observations_overlapping_the_call", nf*20, c.Counter("wbfault_reads_overlapping_the_call")+c.Counter("wbfault_size_probes_overlapping_the_call"))
+		c.Floor("wbfault_getter_checks", nf*5, c.Counter("wbfault_getter_checks"))
+		c.Floor("wbfault_getter_checks/key-never-in-file", nf/20, c.Counter("wbfault_getter_checks/key-never-in-file"))
 		c.Floor("snapshot_calls", 50, c.Counter("snapshot_calls"))
 		c.Floor("snapshot_calls_overlapping_a_reload", 10, c.Counter("snapshot_calls_overlapping_a_reload"))
 	}
